@@ -3,7 +3,7 @@ From Coq Require Import List ZArith NArith Bool.
 From MxlBase Require Import ListX.
 From Scan Require Import ScanGeneric ScanModel.
 Import ListNotations.
-Open Scope Z_scope.
+Local Open Scope Z_scope.
 
 (** what the harness sees of a scan: it raises, or per label the (time, variables, fluxes) rows *)
 Inductive observed := ObsRaise | ObsOk (l : list (label * list (Z * list val * list val))).
